@@ -97,6 +97,10 @@ func parseRabinString(r io.Reader, chunker string) (Splitter, error) {
 			return nil, err
 		} else if int(float32(size)*1.5) > ChunkSizeLimit { // FIXME - this will be addressed in a subsequent PR
 			return nil, ErrSizeMax
+		} else if size/3 < 16 {
+			// NewRabin uses size/3 as the minimum chunk size; below the
+			// 16-byte Rabin window the chunker never finds a boundary
+			return nil, ErrRabinMin
 		}
 		return NewRabin(r, uint64(size)), nil
 	case 4:
